@@ -76,10 +76,37 @@ fn corr_json(rep: &CorrReport) -> String {
     s
 }
 
+/// "suspects":[…] of the unicode-stage report that lies next to the Unicode dump
+fn suspect_scalars(unicode_path: &str) -> Vec<u32> {
+    let dir = std::path::Path::new(unicode_path).parent().map(|p| p.to_path_buf()).unwrap_or_default();
+    let text = match std::fs::read_to_string(dir.join("unicode_report.json")) { Ok(t) => t, Err(_) => return vec![] };
+    match text.find("\"suspects\":[") {
+        Some(i) => { let rest = &text[i + 12..]; let end = rest.find(']').unwrap_or(0); rest[..end].split(',').filter_map(|x| x.trim().parse().ok()).collect() }
+        None => vec![],
+    }
+}
+
 pub fn run(args: &Args) -> i32 {
     let mut rng = Rng::new(args.seed);
     let mut rg = rng.fork(1);
-    let cases = cases_for(&args.prop, &args.tier, &mut rg);
+    let mut cases = cases_for(&args.prop, &args.tier, &mut rg);
+    // scalars on which an oracle side-condition failed in this run's `--mode unicode` stage (e.g. char_class.rs no
+    // longer means what the model assumes): tokenize texts around them first, so that a concrete replay is found
+    let suspects = suspect_scalars(&args.unicode);
+    if !suspects.is_empty() {
+        let mut extra = vec![];
+        for code in LANGS.iter() {
+            let mut ops = vec![];
+            for cp in &suspects {
+                if let Some(c) = char::from_u32(*cp) {
+                    for s in [format!("ab{}cd", c), format!("{}ab", c), format!("ab{}", c), format!("ab {} cd", c), c.to_string()] { ops.push(Op::TokQ(s.clone())); ops.push(Op::TokR(s)); }
+                }
+            }
+            extra.push(Case { name: format!("tok-suspects-{}", code), lang: code.to_string(), stream: "AC-tok-suspect-scalars", ops });
+        }
+        extra.extend(cases.drain(..));
+        cases = extra;
+    }
     let rep = match correspondence(args, &cases) { Ok(r) => r, Err(e) => { eprintln!("correspondence run failed: {}", e); let _ = std::fs::write(&args.out, format!("{{\"error\":{}}}", json_str(&e))); return 2; } };
     let mut replays: Vec<String> = vec![];
     let _ = std::fs::create_dir_all(format!("{}/replays", args.workdir));
